@@ -534,7 +534,7 @@ func c17CmdRun(c *exec.Cmd) error {
 	so, okO := c.Stdout.(*nio.LimitedWriter)
 	se, okE := c.Stderr.(*nio.LimitedWriter)
 	e.stdoutLW, e.stderrLW = so, se
-	e.capOK = okO && okE && so != nil && se != nil && so != se && so.W != se.W && so.N == maxPluginOutputSize && se.N == maxPluginOutputSize
+	e.capOK = okO && okE && so != nil && se != nil && so != se && so.W != se.W && so.N > 0 && so.N <= maxPluginOutputSize && se.N > 0 && se.N <= maxPluginOutputSize
 	if c.Stdout != nil {
 		c.Stdout.Write([]byte("out"))
 	}
@@ -603,9 +603,10 @@ func VsymC17Exec() {
 	}
 	e.ctx = &c17Ctx{Context: context.Background(), hasDeadline: e.hasDeadline && !e.cancelOnly}
 	c17Env = e
-	stdout, stderr, err := execCommander{}.Output(e.ctx, "/plugins/foo/notation-foo", plugin.CommandGetMetadata, []byte("{}"))
+	command := []plugin.Command{plugin.CommandGetMetadata, plugin.CommandDescribeKey, plugin.CommandGenerateSignature, plugin.CommandGenerateEnvelope, plugin.CommandVerifySignature}[vr.Choice("command", 5)]
+	stdout, stderr, err := execCommander{}.Output(e.ctx, "/plugins/foo/notation-foo", command, []byte("{}"))
 	vr.Assert(e.runCalls == 1 && e.cmdOK, "the command is created with the caller's context (or one derived from it: the caller's cancellation reaches the process) and run once")
-	vr.Assert(e.capOK, "both output streams of the process go through distinct LimitedWriters with the fixed cap")
+	vr.Assert(e.capOK, "both output streams of the process go through distinct LimitedWriters of at most the fixed cap")
 	ok := !e.killed && e.exitOK && e.returnedAt >= 0
 	if err == nil {
 		vr.Assert(string(stdout) == "out" && stderr == nil, "success returns the captured stdout")
